@@ -256,3 +256,83 @@ End Det.
 Theorem plan_deterministic : forall ord ord' g g', ord_ok ord -> ord_ok ord' -> graph_ok g -> strict g -> graph_equiv g g' ->
   plan_equiv (plan_of ord g) (plan_of ord' g').
 Proof. intros ord ord' g g' H1 H2 H3 H4 H5. exact (plan_deterministic_l ord ord' g g' H1 H2 H3 H4 H5). Qed.
+
+(* ---------- the accept / reject decision does not depend on the orders either ---------- *)
+Lemma find_sid : forall (p : plan), NoDup (map sid p) -> forall s, In s p -> find (fun x => Nat.eqb (sid x) (sid s)) p = Some s.
+Proof.
+  intros p. induction p as [|a p IH]; intros Hnd s Hs; [destruct Hs|].
+  cbn in Hnd. apply NoDup_cons_iff in Hnd. destruct Hnd as [Ha Hp]. cbn. destruct Hs as [Hs|Hs].
+  - subst a. rewrite Nat.eqb_refl. reflexivity.
+  - destruct (Nat.eqb (sid a) (sid s)) eqn:E.
+    + exfalso. apply Nat.eqb_eq in E. apply Ha. rewrite E. apply in_map. exact Hs.
+    + apply IH; assumption.
+Qed.
+
+(* well-formedness for SOME order is a property of the plan up to plan_equiv (for plans of any kind of steps) *)
+Theorem wf_exists_equiv : forall p p', plan_equiv p p' -> wf_struct p' = true ->
+  (exists order, wf_plan order p = true) -> exists order', wf_plan order' p' = true.
+Proof.
+  intros p p' [q [Hperm Hf2]] Hst [order Hwf].
+  destruct (wf_plan_props order p Hwf) as (_ & _ & Hdj & _ & Hearlier).
+  set (posn := fun s : step => match pos (sid s) order with Some i => i | None => 0 end).
+  set (prodpos := fun u => match find_producer p u with Some s => posn s | None => 0 end).
+  assert (FA : forall s u, In s p -> In u (uuids s) -> prodpos u = posn s).
+  { intros s u Hs Hu. unfold prodpos. destruct (find_producer_some p s u Hs Hu) as [s2 [Ef [Hs2 Hu2]]]. rewrite Ef.
+    rewrite (Hdj s2 s u Hs2 Hs Hu2 Hu). reflexivity. }
+  assert (Hcor : forall s', In s' p' -> exists s, In s p /\ step_equiv s s').
+  { intros s' Hs'. destruct (Forall2_In_r _ _ _ _ _ s' Hf2 Hs') as [s [Hs He]].
+    exists s. split; [exact (Permutation_in _ (Permutation_sym Hperm) Hs) | exact He]. }
+  unfold wf_struct in Hst. apply andb_true_iff in Hst. destruct Hst as [Hst Hprod].
+  apply andb_true_iff in Hst. destruct Hst as [Hst Huu]. apply andb_true_iff in Hst. destruct Hst as [Hne Hsid].
+  rewrite forallb_forall in Hne, Hprod. apply nodupb_NoDup in Hsid, Huu.
+  assert (Hne' : forall s', In s' p' -> uuids s' <> []).
+  { intros s' Hs' E. specialize (Hne s' Hs'). rewrite E in Hne. discriminate. }
+  set (rk' := fun i => match find (fun x => Nat.eqb (sid x) i) p' with Some s => prodpos (hd 0 (uuids s)) | None => 0 end).
+  assert (FC : forall s' s, In s' p' -> In s p -> step_equiv s s' -> rk' (sid s') = posn s).
+  { intros s' s Hs' Hs (_ & Hu & _ & _). unfold rk'. rewrite (find_sid p' Hsid s' Hs'). apply FA; [exact Hs|].
+    apply (Permutation_in _ (Permutation_sym Hu)). apply hd_In. exact (Hne' s' Hs'). }
+  exists (order_upto p' rk' (S (list_max (map (fun s => rk' (sid s)) p')))).
+  apply wf_plan_of_rank.
+  - exact Hne'.
+  - exact Hsid.
+  - exact Huu.
+  - intros s u Hs Hu. specialize (Hprod s Hs). rewrite forallb_forall in Hprod. apply mem_In. exact (Hprod u Hu).
+  - intros s Hs. assert (H : rk' (sid s) <= list_max (map (fun s0 => rk' (sid s0)) p')); [|lia].
+    pose proof (proj1 (list_max_le (map (fun s0 => rk' (sid s0)) p') _) (le_n _)) as Hall.
+    rewrite Forall_forall in Hall. apply Hall. apply in_map_iff. exists s. split; [reflexivity | exact Hs].
+  - intros s1' s2' u H1 H2 Hu Hu2. destruct (Hcor s1' H1) as [s1 [Hs1 E1]]. destruct (Hcor s2' H2) as [s2 [Hs2 E2]].
+    rewrite (FC s1' s1 H1 Hs1 E1), (FC s2' s2 H2 Hs2 E2).
+    destruct E1 as (_ & _ & Er1 & _). destruct E2 as (_ & Eu2 & _ & _).
+    pose proof (Permutation_in _ (Permutation_sym Er1) Hu) as Hur. pose proof (Permutation_in _ (Permutation_sym Eu2) Hu2) as Huu2.
+    destruct (Hearlier s1 u Hs1 Hur) as (sp & i & j & Hsp & Hup & Hi & Hj & Hlt).
+    rewrite (Hdj s2 sp u Hs2 Hsp Huu2 Hup). unfold posn. rewrite Hi, Hj. exact Hlt.
+Qed.
+
+Lemma plan_equiv_sym : forall p p', plan_equiv p p' -> plan_equiv p' p.
+Proof.
+  intros p p' [q [Hperm Hf2]].
+  destruct (Permutation_Forall2 (Permutation_sym Hperm) (Forall2_flip _ _ _ _ _ (Forall2_sym_gen _ _ step_equiv_sym _ _ Hf2))) as [q' [Hq1 Hq2]].
+  exists q'. split; [exact Hq1|]. apply (Forall2_sym_gen _ _ step_equiv_sym). apply Forall2_flip in Hq2.
+  apply (Forall2_sym_gen _ _ step_equiv_sym). exact Hq2.
+Qed.
+
+(* accepted under one choice of the orders iff accepted under any other; the plans are then plan_equiv *)
+Theorem prepare_deterministic : forall ord ord' g g', ord_ok ord -> ord_ok ord' -> graph_ok g -> strict g -> graph_equiv g g' ->
+  (prepare_A ord g = Planned (plan_of ord g) <-> prepare_A ord' g' = Planned (plan_of ord' g')) /\
+  (prepare_A ord g = RejectedCycle <-> prepare_A ord' g' = RejectedCycle) /\
+  plan_equiv (plan_of ord g) (plan_of ord' g').
+Proof.
+  intros ord ord' g g' Hord Hord' Hok Hs Heq.
+  pose proof (ge_graph_ok g g' Heq Hok) as Hok'. pose proof (ge_strict g g' Heq Hs) as Hs'.
+  pose proof (plan_deterministic ord ord' g g' Hord Hord' Hok Hs Heq) as Hpe.
+  assert (Hiff : prepare_A ord g = Planned (plan_of ord g) <-> prepare_A ord' g' = Planned (plan_of ord' g')).
+  { rewrite (prepare_accepts_iff ord g Hord Hok Hs), (prepare_accepts_iff ord' g' Hord' Hok' Hs'). split; intros H.
+    - exact (wf_exists_equiv _ _ Hpe (plan_struct ord' g' Hord' Hok' Hs') H).
+    - exact (wf_exists_equiv _ _ (plan_equiv_sym _ _ Hpe) (plan_struct ord g Hord Hok Hs) H). }
+  split; [exact Hiff|]. split; [|exact Hpe].
+  destruct (prepare_total ord g Hord Hok Hs) as [A|A]; destruct (prepare_total ord' g' Hord' Hok' Hs') as [B|B].
+  - rewrite A, B. split; discriminate.
+  - exfalso. apply Hiff in A. rewrite A in B. discriminate.
+  - exfalso. apply Hiff in B. rewrite B in A. discriminate.
+  - rewrite A, B. split; reflexivity.
+Qed.
